@@ -119,6 +119,9 @@ func Gen(t *rapid.T) *Case {
 			c.Ambient |= busmodel.AmbNils
 		}
 	}
+	if rapid.IntRange(0, 3).Draw(t, "panicking") == 0 {
+		c.PanicMod = rapid.IntRange(1, 4).Draw(t, "panicMod")
+	}
 	nt := len(c.Types)
 	g := &genState{subs: map[int][][2]int{}}
 	// in 1 of 5 histories a crowd of 9-40 registrations on one type comes
